@@ -22,7 +22,7 @@ ASSUMPTIONS = ["the harness keeps only ids and weak references to results", "suc
 
 
 def gen_cases(tier, seed):
-    n = 1000 if tier == "quick" else 20000
+    n = 1000 if tier == "quick" else 15000
     out = []
     for i in range(n):
         s = env.seed_for(seed, ID, tier, i)
